@@ -240,6 +240,54 @@ theorem train_total_same_folder (a b : Bool) (f : Flags) (rounds : List Bool) :
   · intro r; cases a <;> cases b <;> cases r <;> flag_cases f
   · flag_cases f
 
+/-! ## Low-memory fallback: the in-memory cache does not fit, the trainer switches itself to chunks
+
+`traceLM .repaired f rounds`: a fresh run on a host where `psutil` reports too little memory.
+Requested chunk framework: nothing changes (`traceLM = traceG`).  Requested in-memory framework:
+chunk files are written to `./train_chunks`, `./val_chunks` (working directory). -/
+
+/-- **The key is never persisted**, low-memory host, every crash point. -/
+theorem no_key_at_any_crash_point_low_memory (f : Flags) (rounds : List Bool) (n : Nat) (p : Path)
+    (c : Content) (hc : fsAt (traceLM .repaired f rounds) n p = some c) : c.keyBlank = true := by
+  refine fs_blank_of_all_blank _ (forall_mem_traceLM _ f rounds (all_blank_traceG f rounds)
+    ?_ ?_ ?_ ?_ ?_) n p c hc
+  · flag_cases f
+  · flag_cases f
+  · decide
+  · intro b; cases b <;> flag_cases f
+  · flag_cases f
+
+/-- **Full artefacts** on a low-memory host: config files and checkpoints as always; with the
+in-memory framework requested no chunks `config.yaml` and nothing under `np_chunks_path`, and the
+fallback's chunk files in the working directory are gone iff deletion was requested (kept
+otherwise); with the chunk framework requested, exactly `artefacts_complete`. -/
+theorem artefacts_complete_low_memory (f : Flags) (rs : List Bool) :
+    let fs := fsAfter (traceLM .repaired f (true :: rs))
+    fs .initialCfg = some (cfg .supplied true false) ∧
+    fs .trainingCfg = some (cfg .used true f.wandb) ∧
+    fs .bestCkpt = (if f.ckpt then some (cfg .used true false) else none) ∧
+    fs .lastCkpt = (if f.ckpt ∧ f.saveLast then some (cfg .used true false) else none) ∧
+    fs .chunksCfg = (if f.fw = .npChunks then some (cfg .prepared true false) else none) ∧
+    fs .trainChunks = (if f.fw = .npChunks ∧ ¬ f.deleteChunks then some .data else none) ∧
+    fs .valChunks = (if f.fw = .npChunks ∧ ¬ f.deleteChunks then some .data else none) ∧
+    fs .cwdTrainChunks = (if f.fw = .torchDataset ∧ ¬ f.deleteChunks then some .data else none) ∧
+    fs .cwdValChunks = (if f.fw = .torchDataset ∧ ¬ f.deleteChunks then some .data else none) := by
+  rw [fsAfter_traceLM_any_epochs]
+  flag_cases f
+
+example : fsAt (traceLM .repaired ⟨.centroid, .torchDataset, false, true, false, true, true⟩ [true]) 5
+    .cwdValChunks = some .data := by decide
+
+/-- **Training completes** on a low-memory host. -/
+theorem train_total_low_memory (f : Flags) (rounds : List Bool) :
+    ∀ e ∈ traceLM .repaired f rounds, e.isRaise = false := by
+  refine forall_mem_traceLM _ f rounds (train_total f rounds) ?_ ?_ ?_ ?_ ?_
+  · flag_cases f
+  · flag_cases f
+  · decide
+  · intro b; cases b <;> flag_cases f
+  · flag_cases f
+
 /-! ## Aborted runs: an exception or Ctrl-C inside `trainer.fit`
 
 `traceAbort v f rounds` = everything a run writes when `fit` is left by an exception after the
